@@ -23,6 +23,15 @@ T_Panic == /\ l <= Len(Rec) /\ "res" \in DOMAIN E /\ Panicked /\ l' = l + 1
 
 T_Reset == IsEv("reset") /\ sc' = EmptyScene /\ file' = [img |-> <<>>, L |-> <<>>, xml |-> <<>>] /\ res' = Ok(0)
 
+\* a scene encoded by the independent encoder (no writer calls): the file that follows must read back as it
+SceneOf(s) == [EmptyScene EXCEPT !.guid = s.guid, !.fin = TRUE,
+               !.pcs = [i \in 1..Len(s.pcs) |-> [open |-> FALSE, guid |-> s.pcs[i].guid, proto |-> s.pcs[i].proto,
+                                                 pts |-> s.pcs[i].pts, reals |-> <<>>, meta |-> <<>>]]]
+T_Scene == IsEv("s_scene") /\ sc' = SceneOf(E.scene) /\ UNCHANGED <<file, res>>
+T_RSimpleCount == /\ IsEv("r_simple_count") /\ ~Panicked
+                  /\ ChkP(IsOk(E.res) /\ IsOk(E.res) => E.res.ok = NatToL64(Len(sc.pcs[E.pc].pts)), {"C05", "C03"}, "simple-iterator-count-differs-from-record-count")
+                  /\ res' = E.res /\ UNCHANGED <<sc, file>>
+
 T_WNew == IsEv("w_new") /\ NoPanic /\ W_New(E.guid, E.res)
 T_WCoord == IsEv("w_coord") /\ W_SetRoot("coord", E.v)
 T_WCreation == IsEv("w_creation") /\ W_SetRoot("creation", E.v)
@@ -141,7 +150,7 @@ T_Final == /\ IsEv("final")
 FileUnch == UNCHANGED <<sc, file>>
 RNoPanic == ~Panicked
 T_ROpen == /\ IsEv("r_open") /\ RNoPanic
-           /\ ChkP(IsOk(E.res), {"C10", "C01", "C04", "C06", "C12", "C14", "C19"}, "finalized-file-does-not-open")
+           /\ ChkP(IsOk(E.res), {"C10", "C01", "C04", "C06", "C12", "C14", "C19", "C03"}, "finalized-file-does-not-open")
            /\ res' = E.res /\ FileUnch
 
 OptEq(a, b) == a = b
@@ -158,7 +167,7 @@ IntensityLimitsSettled(pc) ==
 ColorFields == <<"rmin", "rmax", "gmin", "gmax", "bmin", "bmax">>
 ExpColorLimits(pc) ==
     IF WasSet(pc.meta, "color_limits") THEN LastSet(pc.meta, "color_limits")
-    ELSE IF HasName(pc.proto, "colorRed")
+    ELSE IF HasName(pc.proto, "colorRed") /\ HasName(pc.proto, "colorGreen") /\ HasName(pc.proto, "colorBlue")
          THEN LET r == RecOf(pc.proto, "colorRed") g == RecOf(pc.proto, "colorGreen") b == RecOf(pc.proto, "colorBlue")
                   cl == [rmin |-> TypeLimit(r, "min"), rmax |-> TypeLimit(r, "max"), gmin |-> TypeLimit(g, "min"),
                          gmax |-> TypeLimit(g, "max"), bmin |-> TypeLimit(b, "min"), bmax |-> TypeLimit(b, "max")]
@@ -193,10 +202,10 @@ CartFields == <<"xmin", "xmax", "ymin", "ymax", "zmin", "zmax">>
 SphFields  == <<"rmin", "rmax", "emin", "emax", "astart", "aend">>
 
 RPcOk(rp, pc, pcnode) ==
-    /\ ChkP(rp.records = NatToL64(Len(pc.pts)), {"C01"}, "reported-record-count")
-    /\ ChkP(rp.proto = pc.proto, {"C01", "C04"}, "reported-prototype")
+    /\ ChkP(rp.records = NatToL64(Len(pc.pts)), {"C01", "C03"}, "reported-record-count")
+    /\ ChkP(rp.proto = pc.proto, {"C01", "C04", "C03"}, "reported-prototype")
     /\ ChkP(rp.file_offset = AttrV(PointsEl(pcnode), "fileOffset").u, {"C04"}, "reported-file-offset")
-    /\ ChkP(rp.guid = SomeV(pc.guid), {"C04"}, "pointcloud-guid")
+    /\ ChkP(rp.guid = SomeV(pc.guid), {"C04", "C03"}, "pointcloud-guid")
     /\ \A i \in 1..Len(PcStringFields) :
           ChkP(rp[PcStringFields[i]] = LastSet(pc.meta, PcStringFields[i]), {"C04"}, "pointcloud-string:" \o PcStringFields[i])
     /\ \A i \in 1..Len(PcFloatFields) :
@@ -233,9 +242,9 @@ RImOk(ri, im) ==
 
 T_RReport == /\ IsEv("r_report") /\ RNoPanic
              /\ ChkP(IsOk(E.res), {"C04"}, "report-failed")
-             /\ ChkP(E.res.ok.guid = sc.guid, {"C04"}, "file-guid")
+             /\ ChkP(E.res.ok.guid = sc.guid, {"C04", "C03"}, "file-guid")
              /\ ChkP(E.res.ok.header.phys_length = NatToL64(Len(file.img)), {"C02"}, "reported-header-length")
-             /\ ChkP(Len(E.res.ok.pcs) = Len(sc.pcs), {"C01"}, "reported-number-of-point-clouds")
+             /\ ChkP(Len(E.res.ok.pcs) = Len(sc.pcs), {"C01", "C03"}, "reported-number-of-point-clouds")
              /\ Len(E.res.ok.pcs) = Len(sc.pcs) =>
                   \A i \in 1..Len(sc.pcs) : RPcOk(E.res.ok.pcs[i], sc.pcs[i], Data3D(file.xml)[i])
              /\ ChkP(Len(E.res.ok.images) = Len(sc.images), {"C04"}, "reported-number-of-images")
@@ -247,10 +256,10 @@ T_RReport == /\ IsEv("r_report") /\ RNoPanic
              /\ res' = E.res /\ FileUnch
 
 T_RRaw == /\ IsEv("r_raw") /\ RNoPanic
-          /\ ChkP(IsOk(E.res), {"C01", "C12"}, "raw-read-failed")
+          /\ ChkP(IsOk(E.res), {"C01", "C12", "C03"}, "raw-read-failed")
           /\ IsOk(E.res) =>
-               /\ ChkP(E.res.end = 1 /\ Len(E.res.ok) = Len(sc.pcs[E.pc].pts), {"C01", "C12"}, "number-of-points-read")
-               /\ ChkP(E.res.ok = sc.pcs[E.pc].pts, {"C01", "C12"}, "points-read-differ")
+               /\ ChkP(E.res.end = 1 /\ Len(E.res.ok) = Len(sc.pcs[E.pc].pts), {"C01", "C12", "C03"}, "number-of-points-read")
+               /\ ChkP(E.res.ok = sc.pcs[E.pc].pts, {"C01", "C12", "C03"}, "points-read-differ")
           /\ res' = E.res /\ FileUnch
 
 AllBlobs == sc.blobs
@@ -267,7 +276,7 @@ T_RXml == /\ IsEv("r_xml") /\ RNoPanic
           /\ ChkP(IsOk(E.res) /\ E.res.ok = XmlBytes(file.img, file.L), {"C04"}, "xml-returned-differs-from-file")
           /\ res' = E.res /\ FileUnch
 
-TNext == \/ T_Reset \/ T_Panic \/ T_WNew \/ T_WCoord \/ T_WCreation \/ T_WExt \/ T_WBlob
+TNext == \/ T_Reset \/ T_Panic \/ T_Scene \/ T_RSimpleCount \/ T_WNew \/ T_WCoord \/ T_WCreation \/ T_WExt \/ T_WBlob
          \/ T_PcNew \/ T_PcSet \/ T_PcPoints \/ T_PcPoint \/ T_PcFinalize \/ T_PcDrop
          \/ T_ImNew \/ T_ImSet \/ T_ImAdd \/ T_ImFinalize \/ T_ImDrop
          \/ T_WFinalize \/ T_Final
